@@ -80,7 +80,24 @@ pub fn monitor(out: &RunOut) -> MonOut {
                     m.count("R1.unanswered_at_end");
                 }
                 Some((ri, reply)) => {
-                    m.sig(format!("{:?}|{:?}", reply, r.source));
+                    // where the request landed: the kind of the last environment observation before it
+                    let landed = (l.start..r.invoke).rev().find_map(|j| match &h[j].kind {
+                        Kind::TimerArm { .. } => Some("timer-armed"),
+                        Kind::HttpSend { .. } => Some("http-in-flight"),
+                        Kind::Policy(PolicyRec::ComputeNext { .. }) => Some("policy-next"),
+                        Kind::Policy(PolicyRec::CheckAllowed { .. }) => Some("policy-allowed"),
+                        Kind::Policy(PolicyRec::CanStart { .. }) => Some("policy-canstart"),
+                        Kind::Policy(PolicyRec::RebootAllowed { .. }) => Some("policy-reboot"),
+                        Kind::Installer(InstallerRec::CreatePlan { .. }) => Some("plan"),
+                        Kind::Installer(InstallerRec::PerformInstall { .. }) | Kind::Installer(InstallerRec::ProgressSent { .. }) | Kind::Installer(InstallerRec::ProgressReturned { .. }) => Some("install"),
+                        Kind::HttpDeliver { .. } => Some("http-delivered"),
+                        Kind::TimerFire { .. } => Some("timer-fired"),
+                        Kind::Event(EventRec::State(StateRec::WaitingForReboot)) => Some("waiting-for-reboot"),
+                        Kind::Event(EventRec::State(StateRec::Idle)) => Some("idle"),
+                        _ => None,
+                    }).unwrap_or("start");
+                    let concurrent = reqs.iter().filter(|o| o.invoke < r.invoke && o.reply.as_ref().map(|(oi, _)| *oi > r.invoke).unwrap_or(true)).count();
+                    m.sig(format!("{:?}|{:?}|{landed}|pending{concurrent}", reply, r.source));
                     match reply {
                         CtlReply::Started | CtlReply::Throttled => {
                             let want_pos = *reply == CtlReply::Started;
@@ -198,6 +215,46 @@ pub fn monitor(out: &RunOut) -> MonOut {
                 }
             }
         }
+        // R4 (trigger): an on-demand request answered inside a reboot wait puts the reboot question
+        // at once; unless the wait's own 30-minute timer fired in the window, a question between the
+        // request and the client's observation of the reply must exist, one per request
+        {
+            let mut used_q: Vec<usize> = vec![];
+            for r in &reqs {
+                if r.source != Src::OnDemand {
+                    continue;
+                }
+                let (ri, reply) = match &r.reply {
+                    Some(x) => x.clone(),
+                    None => continue,
+                };
+                if reply != CtlReply::AlreadyRunning {
+                    continue;
+                }
+                let w = match waits.iter().find(|w| ri > w.start && ri < w.end && r.invoke > w.start) {
+                    Some(w) => w,
+                    None => continue,
+                };
+                // was a previous question already answered yes (the wait is ending)?
+                let ended = (w.start..r.invoke).any(|j| matches!(&h[j].kind, Kind::Policy(PolicyRec::RebootAllowed { answer: true, .. })));
+                let timer_fired = (r.invoke..ri).any(|j| {
+                    if let Kind::TimerFire { id } = &h[j].kind {
+                        (w.start..j).any(|k| matches!(&h[k].kind, Kind::TimerArm { id: id2, arg: TimerArg::For(d), .. } if id2 == id && *d == 1_800_000_000_000))
+                    } else {
+                        false
+                    }
+                });
+                if ended || timer_fired {
+                    continue;
+                }
+                m.count("R4.on_demand_triggers_question");
+                let q = (r.invoke..ri).find(|j| !used_q.contains(j) && matches!(&h[*j].kind, Kind::Policy(PolicyRec::RebootAllowed { source: Src::OnDemand, .. })));
+                match q {
+                    Some(j) => used_q.push(j),
+                    None => m.viol(p, "R4", format!("L{}@{}", l.life, r.invoke), "an on-demand request during the reboot wait was answered without the reboot question being put".to_string()),
+                }
+            }
+        }
         // R6: after all handles are dropped scheduled operation continues (no spin, no halt)
         let dropped_all = (l.start..l.end).find(|i| matches!(h[*i].kind, Kind::CtlHandleDrop { client } if client == u32::MAX));
         if let Some(d) = dropped_all {
@@ -210,6 +267,39 @@ pub fn monitor(out: &RunOut) -> MonOut {
             }
             if (d..l.end).any(|i| matches!(h[i].kind, Kind::Policy(PolicyRec::CheckAllowed { .. }))) {
                 m.count("R6.checks_after_drop");
+            }
+            // scheduled operation intact: after the drop a check begins only when all timers of its wait fired
+            let mut armed: Vec<(u64, bool)> = vec![];
+            let mut tracking = false;
+            for i in l.start..l.end {
+                match &h[i].kind {
+                    Kind::Policy(PolicyRec::ComputeNext { .. }) => {
+                        armed.clear();
+                        tracking = true;
+                    }
+                    Kind::TimerArm { id, arg, .. } if tracking => {
+                        if *arg != TimerArg::For(1_800_000_000_000) {
+                            armed.push((*id, false));
+                        }
+                    }
+                    Kind::TimerFire { id } => {
+                        for a in armed.iter_mut() {
+                            if a.0 == *id {
+                                a.1 = true;
+                            }
+                        }
+                    }
+                    Kind::Policy(PolicyRec::CheckAllowed { .. }) => {
+                        if tracking && i > d {
+                            let pending_req = reqs.iter().any(|r| r.invoke < i && r.reply.as_ref().map(|(ri, _)| *ri > i).unwrap_or(true));
+                            if !armed.is_empty() && !armed.iter().all(|a| a.1) && !pending_req {
+                                m.viol(p, "R6", format!("L{}@{}", l.life, i), "after all handles were dropped a check began although the wait's timers had not fired".to_string());
+                            }
+                        }
+                        tracking = false;
+                    }
+                    _ => {}
+                }
             }
         }
         // R5 (wake-up without timer) is evaluated in a dedicated profile through virtual time
